@@ -32,6 +32,10 @@ ty_sr = z3.Function('ty_slash_right', TyS, TyS)
 mk_over = z3.Function('ty_mk_over', TyS, TyS, TyS)
 mk_under = z3.Function('ty_mk_under', TyS, TyS, TyS)
 
+mk_swap = z3.Function('box_swap', TyS, TyS, BoxS)       # Swap(left, right) as a function of its two one-object types
+boxout = z3.Function('box_function', BoxS, TyS, TyS)     # the python function of a cartesian box, on tuples of wire values
+ob_truthy = z3.Function('ob_truthy', Ob, z3.BoolSort())      # truth value of an abstract wire value (any: 0, '', None are falsy)
+
 KINDS = {'Box': 0, 'Swap': 1, 'Cup': 2, 'Cap': 3, 'Sum': 4, 'Bubble': 5, 'Spider': 6, 'Layer': 7,
          'FA': 8, 'BA': 9, 'FC': 10, 'BC': 11, 'FX': 12, 'BX': 13, 'Curry': 14}
 
